@@ -639,6 +639,47 @@ func (nd *Node) BlockEvents(height uint64) (out []string) {
 	return
 }
 
+func eventStrings(evs []*lib.Event) (out []string) {
+	for _, e := range evs {
+		bz, _ := lib.Marshal(e)
+		out = append(out, hex.EncodeToString(bz))
+	}
+	return
+}
+
+// ProposalEvents are the events of the block result the mempool cached with its current proposal
+// (CheckMempool: ApplyBlock over the whole mempool, failing and oversize transactions tolerated).
+func (nd *Node) ProposalEvents() (out []string, ok bool) {
+	p, ok := nd.C.GetProposalBlockFromMempool()
+	if !ok || p == nil || p.BlockResult == nil {
+		return nil, false
+	}
+	return eventStrings(p.BlockResult.Events), true
+}
+
+// CachedResultEvents are the events of the BFT's cached block result (what Validate last computed by
+// executing exactly the block's transactions).
+func (nd *Node) CachedResultEvents() (out []string, ok bool) {
+	if r := nd.C.Consensus.BlockResult; r != nil {
+		return eventStrings(r.Events), true
+	}
+	return nil, false
+}
+
+// DescribeEvents renders marshalled events (as returned by BlockEvents / ProposalEvents) readably.
+func DescribeEvents(evs []string) (out []string) {
+	for _, h := range evs {
+		bz, _ := hex.DecodeString(h)
+		e := new(lib.Event)
+		if err := lib.Unmarshal(bz, e); err != nil {
+			out = append(out, "?"+h)
+			continue
+		}
+		out = append(out, fmt.Sprintf("%s(height %d, reference %s)", e.EventType, e.Height, e.Reference))
+	}
+	return
+}
+
 // MaxBlockSize is the transaction-bytes budget of a block (params.blockSize - header allowance).
 func (nd *Node) MaxBlockSize() uint64 {
 	nd.enter()
@@ -739,6 +780,21 @@ func (nd *Node) ApplyUnnested(txs [][]byte, f func()) (failedAt int, err lib.Err
 	}
 	f()
 	return -1, nil
+}
+
+// Explorer runs read-only indexer queries the way cmd/rpc does for every explorer request
+// (Server.setupStore): a fresh store over the node's database (store.NewStoreWithDB(config,
+// FSM.Store().DB(), nil, log)), discarded afterwards. Nothing the queries do may change what the node
+// executes, stores or serves.
+func (nd *Node) Explorer(fn func(st lib.StoreI) lib.ErrorI) (err lib.ErrorI) {
+	nd.enter()
+	defer recoverTo(&err)
+	st, err := store.NewStoreWithDB(nd.Net.Config, nd.C.FSM.Store().(lib.StoreI).DB(), nil, nd.Net.Log)
+	if err != nil {
+		return err
+	}
+	defer st.Discard()
+	return fn(st)
 }
 
 // QCByHeight is the archive read (store.GetQCByHeight through the FSM).
